@@ -100,7 +100,7 @@ Definition valid_cookie (c : bytes * bytes) : bool :=
   valid_method (fst c) && forallb valid_cookie_value_byte (snd c).
 
 (* everything up to the protocol writers: the http.Request the transport works on *)
-Definition to_creq (a : areq) : outcome creq :=
+Definition to_creq_gen (mcheck : bool) (a : areq) : outcome creq :=
   let h0 := merge_headers (a_rhdr a) (a_chdr a) in
   match parse_request_url (a_base a) (a_raw a) (a_rp a) (a_cp a) (a_cq a) (a_rq a) with
   | BErr => Rejected
@@ -112,9 +112,27 @@ Definition to_creq (a : areq) : outcome creq :=
       if negb (forallb valid_cookie (a_rck a ++ a_cck a)) then Rejected      (* checkRequestCookie *)
       else if negb (valid_headers h2) then Rejected
       else if is_nil (a_method a) then Unsupported        (* "" means GET; not generated *)
-      else if negb (valid_method (a_method a)) then Rejected   (* before the forced-version switch *)
+      else if mcheck && negb (valid_method (a_method a)) then Rejected   (* before the forced-version switch *)
       else Sent (mk_creq (a_method a) host target scheme h2 (out_len a) (a_compress a))
   end.
+
+Definition to_creq : areq -> outcome creq := to_creq_gen true.
+
+(* ---------- HTTP/2 and HTTP/3: the field list handed to the HPACK / QPACK encoder ----------
+   (encodeHeaders: Host validity, then C16's collectors; header names and values were validated
+   by Transport.roundTrip and again by encodeHeaders) *)
+Definition fields_h23 (lines : creq -> list line) (mcheck : bool) (a : areq) : outcome (list line) :=
+  match to_creq_gen mcheck a with
+  | Sent q => if negb (is_ascii (c_host q)) then Unsupported
+              else if negb (valid_host_header (c_host q)) then Rejected
+              else Sent (lines q)
+  | Rejected => Rejected
+  | Unsupported => Unsupported
+  end.
+Definition fields_h2 : areq -> outcome (list line) := fields_h23 h2_lines true.
+Definition fields_h3 : areq -> outcome (list line) := fields_h23 h3_lines true.
+(* before fix 962230a the forced HTTP/2 path did not reach validMethod *)
+Definition fields_h2_pinned : areq -> outcome (list line) := fields_h23 h2_lines false.
 
 (* ---------- HTTP/1.1 ---------- *)
 (* transferWriter: chunked iff the length is unknown and (the method usually has a body or the
@@ -147,6 +165,7 @@ Definition render_head (method target : bytes) (ls : list line) : bytes :=
 (* persistConn.writeRequest up to the blank line; the host is cleaned here *)
 Definition h1_head (q : creq) (body : bytes) : outcome bytes :=
   if negb (valid_method (c_method q)) then Rejected
+  else if m_is (c_method q) "CONNECT" then Unsupported          (* authority-form target, unframed body *)
   else if negb (is_ascii (c_host q)) || mem_byte "["%byte (c_host q) then Unsupported
   else if negb (valid_host_header (c_host q)) then Rejected     (* pinned: Host emptied, see h1_head_pinned *)
   else if existsb is_ctl (c_path q) then Rejected
@@ -259,3 +278,33 @@ Definition gen_body (seed n : N) : bytes :=
 (* bodies above 600 bytes are stood for by their length in the Coq cases (the model looks only at the
    length and the emptiness of a long body; the bytes themselves are compared by the harness) *)
 Definition long_body (n : N) : bytes := N.iter n (cons x00) [].
+
+(* ---------- the whole HTTP/1.1 request, and what the caller described ---------- *)
+Definition eff_body (a : areq) : bytes := match eff_kind a with BNone => [] | _ => a_body a end.
+
+(* [parts]: the pieces in which a body of unknown length happens to be read (any partition) *)
+Definition render_h1 (a : areq) (parts : list bytes) : outcome bytes :=
+  match to_creq a with
+  | Sent q =>
+      match h1_head q (eff_body a) with
+      | Sent hd => Sent (hd ++ (if h1_chunked q (eff_body a) then chunked_body parts else eff_body a))
+      | Rejected => Rejected
+      | Unsupported => Unsupported
+      end
+  | Rejected => Rejected
+  | Unsupported => Unsupported
+  end.
+
+(* the request as described through the API: method, target built from the URL parts, the field
+   lines with their values as HTTP defines them (no surrounding blanks), the body bytes *)
+Definition described (a : areq) : option view :=
+  match to_creq a with
+  | Sent q => Some (mkView (c_method q) (c_path q)
+                           (map trim_line (h1_field_lines q (eff_body a))) (eff_body a))
+  | _ => None
+  end.
+
+(* no caller-chosen key spells a framing field (only the verbatim-key setters can do that) *)
+Definition framing_name (k : bytes) : bool :=
+  equal_fold k (bs "content-length") || equal_fold k (bs "transfer-encoding").
+Definition no_framing_keys (h : list kv) : bool := forallb (fun x => negb (framing_name (fst x))) h.
